@@ -95,6 +95,14 @@ func (f *Defgeneric) Call(s *slip.Scope, args slip.List, depth int) slip.Object 
 		fd.Args[i] = &slip.DocArg{Name: string(sym)}
 	}
 	aux := NewAux(&fd)
+	if fi := slip.FindFunc(string(name)); fi != nil {
+		if old, _ := fi.Aux.(*Aux); old != nil {
+			// The reader, writer, and accessor methods made by the slot
+			// options of a defclass are not part of a defgeneric form, they
+			// stay when the generic function is defined again.
+			old.keepAccessorMethods(aux)
+		}
+	}
 	for _, a := range args[2:] {
 		var option slip.List
 		if option, ok = a.(slip.List); !ok || len(option) < 2 {
